@@ -700,6 +700,47 @@ def evaluate_sp(ctx, exes, cases, stats, shrink=True):
     return n_eval
 
 
+def branch_stats(case, acc):
+    """coverage statistics only (never a verdict): how often each case split of the Dijkstra proofs is taken on
+    this input — settled neighbour skipped, relaxation by insert / by decrease_key (= a stale entry under the
+    priority queue), equal distance (no relaxation), worse distance, ties among minimal keys at extraction,
+    unreachable vertices"""
+    N = case["N"]
+    K = len(case["nbrs"][0]) if case["nbrs"] else 0
+    w = case["w"]
+    for k in range(N):
+        dist = {k: 0}
+        heap = {k: 0}
+        settled = set()
+        while heap:
+            m = min(heap.values())
+            cands = [v for v, d in heap.items() if d == m]
+            if len(cands) > 1:
+                acc["tie_at_extract"] += 1
+            u = cands[0]
+            del heap[u]
+            settled.add(u)
+            for v in case["nbrs"][u][:K]:
+                if v in settled:
+                    acc["neighbour_settled"] += 1
+                    continue
+                nd = dist[u] + w[u][v]
+                if v not in dist:
+                    acc["relax_insert"] += 1
+                elif nd < dist[v]:
+                    acc["relax_decrease_key_or_stale"] += 1
+                elif nd == dist[v]:
+                    acc["equal_no_relax"] += 1
+                    continue
+                else:
+                    acc["worse_no_relax"] += 1
+                    continue
+                dist[v] = nd
+                heap[v] = nd
+        acc["unreachable_entries"] += N - len(dist)
+        acc["rows"] += 1
+
+
 def strip(case):
     return {k: v for k, v in case.items() if not k.startswith("_")}
 
@@ -880,8 +921,10 @@ def evaluate_iso(ctx, exes, cases, stats):
             N = c["N"]
             tags = r["tags"]
             if "nbrs" not in tags or "geo" not in tags or "emb" not in tags:
-                ctx.violation(strip(c), "embed() did not go through compute_shortest_distances_matrix / unusable "
-                                        "output (%s): tags %s" % (tag, sorted(tags)))
+                # the recording macros saw nothing (embed() restructured?): the stage can no longer be observed —
+                # that is "no longer shown", not a failing input
+                ctx.mismatch(strip(c), "embed() did not go through compute_shortest_distances_matrix / "
+                                       "eigendecomposition_via as wrapped by the harness (%s): tags %s" % (tag, sorted(tags)))
                 continue
             nr, K, nt = tags["nbrs"]
             try:
@@ -1151,6 +1194,11 @@ def run(ctx):
     size_hist = {}
     for c in allc:
         size_hist[str(c["N"])] = size_hist.get(str(c["N"]), 0) + 1
+    branches = {"tie_at_extract": 0, "neighbour_settled": 0, "relax_insert": 0, "relax_decrease_key_or_stale": 0,
+                "equal_no_relax": 0, "worse_no_relax": 0, "unreachable_entries": 0, "rows": 0}
+    for c in sp_cases:
+        if c["N"] <= 64:
+            branch_stats(c, branches)
     feat = {"with_landmarks": sum(1 for c in sp_cases if c["lm"]),
             "ragged_rows": sum(1 for c in sp_cases if c.get("ragged")),
             "dyadic_fraction_weights": sum(1 for c in sp_cases if c.get("scale", 0) > 0),
@@ -1166,7 +1214,8 @@ def run(ctx):
              "are fixed by the tier.",
         samples=[{k: (v if k not in ("w", "T") else v[:3]) for k, v in strip(c).items()}
                  for c in (sp_cases[:2] + sp_cases[12:14] + iso_cases[:2])],
-        histogram={"generators": hist, "N": size_hist, "features": feat, "stats": stats,
+        histogram={"generators": hist, "N": size_hist, "features": feat, "proof_case_splits_exercised": branches,
+                   "stats": stats,
                    "search_phase_cases": searched, "threads": list(THREADS), "builds": list(BUILDS)},
         trusted_base=TRUSTED, assumptions=ASSUMPTIONS,
         extra={"traces_validated_against_impl": stats["traces"]})
